@@ -14,7 +14,8 @@ RULE = ('"hostile" object graphs bound to a real frame, to watch results, to ret
         'bytearray, complex, datetime, deque, range, enum members, namedtuples, generators, iterators, functions, builtins, '
         'modules, types, slotted objects, mappingproxy, memoryview, list/dict subclasses, objects whose __str__ / __repr__ / '
         '__len__ / __eq__ raise, __getattr__ raising AttributeError, private attribute names, dicts with int / tuple / float / '
-        'None keys, strings with NUL, quotes, non-BMP characters and lone surrogates, cyclic structures; 1-4 snapshot '
+        'None keys, strings with NUL, quotes, non-BMP characters and lone surrogates, cyclic structures; locals called self / cls '
+        'whose __class__ / __getattribute__ / __getattr__ raise and proxies whose __class__ differs from type(); 1-4 snapshot '
         'tracepoints on the same line (separate triggers or one trigger) with equal or different limits and watches, each '
         'action also run alone on the same objects (the "complete on its own" reference). Objects on which a probe of the '
         'collector raises (len / isinstance / .args / hasattr / __dict__) are part of the judged stream; __str__ raising a '
@@ -22,7 +23,10 @@ RULE = ('"hostile" object graphs bound to a real frame, to watch results, to ret
         'than one tracepoint fired. Distinct = canonical JSON of the case.')
 TRUSTED = ['CPython frame.f_locals / eval / id() semantics; str()/len()/tuple()/hasattr() of the generated classes',
            'harness/props/collector_common.py: object builder, raw-fact walker (describe_heap)']
-ASSUMPTIONS = ['host __str__ / __len__ / attribute access raise Exception subclasses (safe_str catches Exception: '
+ASSUMPTIONS = ['type(o).__name__ / str(type(o)) do not raise (no hostile metaclass), keys and str() results are not instances of str '
+               'subclasses overriding startswith / __len__ / __getitem__, keys of exact dicts still hash at collection time (each '
+               'of the first three aborts a snapshot on the real code: notes/probes/p20_c06_assumed_not_to_raise.py; finding candidates)',
+               'host __str__ / __len__ / attribute access raise Exception subclasses (safe_str catches Exception: '
                'c06_guard_class); BaseException from __str__ is recorded in a separate stream, not judged',
                'delivery is observed at the push service (protobuf conversion is C08)']
 
@@ -103,7 +107,10 @@ def corpus():
     hostile = [{'objs': [{'t': 'hostile', 'k': k}, {'t': 'int', 'v': 5}], 'locals': [['h', 0], ['q', 1]],
                 'frame_type': 'single_frame', 'stream': 'corpus', 'actions': [{'limits': {}, 'watches': ['h', 'h']}]}
                for k in cc.HOSTILE_KEYS]
-    return hostile + [
+    selfs = [{'objs': [{'t': 'hostile', 'k': k}, {'t': 'int', 'v': 5}], 'locals': [[nm, 0], ['q', 1]],
+              'frame_type': 'single_frame', 'stream': 'corpus', 'actions': [{'limits': {}}]}
+             for k in ('getattribute', 'class_prop_raises', 'proxy', 'slots_getattr', 'getattr_runtime') for nm in ('self', 'cls')]
+    return hostile + selfs + [
         {'objs': [{'t': 'int', 'v': 5}], 'locals': [['q', 0]], 'recursion': True, 'frame_type': 'single_frame',
          'stream': 'corpus', 'actions': [{'limits': {}}]},
         # tracepoints on one line with different frame types, on a stack of two frames
